@@ -132,13 +132,18 @@ class Drive:
     def write_cw(self, cw):
         self.tick()
         new = drive_step(self.state, cw, self.prev)
+        ign = False
+        if self.state == "FAULT" and new != "FAULT" and getattr(self, "sticky", 0) > 0:
+            # the cause of the fault is still present: this reset attempt has no effect
+            self.sticky -= 1
+            new, ign = "FAULT", True
         self.prev = cw
         if self.lag:
             self.pending = (new, self.events + self.lag) if new != self.state else None
-            self.ev.append({"e": "cw", "val": cw, "after": self.state, "lag": True})
+            self.ev.append({"e": "cw", "val": cw, "after": self.state, "lag": True, "ign": ign})
             return
         self.state = new
-        self.ev.append({"e": "cw", "val": cw, "after": new, "lag": False})
+        self.ev.append({"e": "cw", "val": cw, "after": new, "lag": False, "ign": ign})
         if self.on_change:
             self.on_change()
 
@@ -172,6 +177,8 @@ def mk_node(drive, transport, nid=3, with_mode=False):
     node = p402.BaseNode402(nid, build_od())
 
     def on_send(msg):
+        if transport == "sdo_dis":
+            return          # the drive's RPDO is switched off: it does not listen to PDO frames
         if msg.arbitration_id == 0x200 + nid and not msg.is_remote_frame:
             d = bytes(msg.data)
             if len(d) >= 3:                 # RPDO1 = controlword + modes of operation
@@ -183,6 +190,14 @@ def mk_node(drive, transport, nid=3, with_mode=False):
     net.add_node(node)
     node.sdo.upload = drive.upload
     node.sdo.download = drive.download
+    if transport == "sdo_dis":
+        # controlword and mode are mapped in an RPDO that is switched off (a leftover default
+        # mapping): the objects must be reached by SDO
+        rp = node.rpdo[1]
+        rp.cob_id, rp.enabled = 0x200 + nid, False
+        rp.add_variable(0x6040, 0)
+        rp.add_variable(0x6060, 0)
+        node.setup_pdos(upload=False)
     if transport == "pdo":
         rp, tp = node.rpdo[1], node.tpdo[1]
         rp.cob_id, rp.enabled = 0x200 + nid, True
@@ -253,6 +268,7 @@ def run_case(case: dict) -> dict:
     else:
         drive = Drive(ev, case["init"], case.get("extra", False), case.get("auto_after"))
         drive.lag = case.get("lag", 0)
+        drive.sticky = case.get("sticky", 0)
         ev.append({"e": "init", "state": case["init"]})
         net, node = mk_node(drive, case.get("transport", "sdo"))
         for target in case["targets"]:
